@@ -5,7 +5,7 @@ CONSTANTS
   Idents = {"a", "foo_bar", "foo_bar2", "r#type", "r#match", "class", "default", "x_", "_lead", "http_url_v2", "user_id", "id", "ID", "URL", "API_KEY", "userName", "HTTPServer2"}
   Renames = {"$ref", "none", "other", "parentId", "fooBar", "foo-bar", "Foo_Bar-2", "class", "_x"}
   RuleSet = {"none", "lowercase", "UPPERCASE", "PascalCase", "camelCase", "snake_case", "SCREAMING_SNAKE_CASE", "kebab-case", "SCREAMING-KEBAB-CASE"}
-  Spellings = {"merged", "split", "reversed", "extra"}
+  Spellings = {"after_list", "merged", "split", "reversed", "extra"}
   EnumRules = {"none", "SCREAMING_SNAKE_CASE", "kebab-case"}
 INIT Init
 NEXT Next
